@@ -445,7 +445,11 @@ def h_sequence(X, K, lean=False):
     saved = wl.Fragmentizer.FRAGMENT_SIZE
     wl.Fragmentizer.FRAGMENT_SIZE = F
     try:
-        w = _World(X, False, F)
+        # with permessage-deflate each direction has its own compression context: messages in BOTH directions on one connection
+        deflate = X.boolean("permessage_deflate")
+        w = _World(X, deflate, F)
+        if deflate:
+            X.reach("deflate-sequence")
         w.d.start()
         n_msgs = 0
         for step in range(K):
@@ -488,6 +492,6 @@ def obligations(tier):
                                           "split-inside-codepoint", "many-segments"], parallel_depth=3),
         Symx("e2e-sequence", lambda X: h_sequence(X, kseq, lean=kseq > 2),
              bounds=f"every schedule of <= {kseq} steps (<= 3 messages) over {{message (direction x type x 1|2 frames x addon none/resize/drop x segmentation), injected message (direction x type x "
-                    f"short/long), ping|pong, close}}; FRAGMENT_SIZE=5" + ("; lean menus: no TCP segmentation choice, ping only, 2 close code/reason pairs" if kseq > 2 else ""),
-             encoded=ENCODED, must_reach=["end", "message", "injected", "ping-pong", "closed", "two-steps"], parallel_depth=3),
+                    f"short/long), ping|pong, close}} x permessage-deflate on/off; FRAGMENT_SIZE=5" + ("; lean menus: no TCP segmentation choice, ping only, 2 close code/reason pairs" if kseq > 2 else ""),
+             encoded=ENCODED, must_reach=["end", "message", "injected", "ping-pong", "closed", "two-steps", "deflate-sequence"], parallel_depth=3),
     ]
